@@ -108,7 +108,7 @@ func (p *Program) assignLocs(con *Contract, sig *types.Signature) (locs []assign
 				qcount++
 				iv := T{fmt.Sprintf("%s!q%d", v, qcount), SInt}
 				addr, _, _ := mk(tr, iv)
-				return T{fmt.Sprintf("(forall ((%s Int)) (=> (and (<= 0 %s) (< %s %s)) %s))", iv.S, iv.S, iv.S, lenOf(tr).S, cond(addr).S), SBool}
+				return T{fmt.Sprintf("(forall ((%s Int)) (! (=> (and (<= 0 %s) (< %s %s)) %s) :pattern (%s)))", iv.S, iv.S, iv.S, lenOf(tr).S, cond(addr).S, addr.S), SBool}
 			}
 			locs = append(locs, loc)
 			continue
